@@ -220,6 +220,34 @@ func Run(ctx *common.Ctx) int {
 		evals += 2
 		distinct.Add(fmt.Sprint("large N=", N))
 	}
+	// ---------- other GOMAXPROCS settings: the result must not depend on how work might be split ----------
+	prevG := runtime.GOMAXPROCS(0)
+	for _, gmp := range []int{1, 3, 5, 6, 7, 12} {
+		runtime.GOMAXPROCS(gmp)
+		for _, lg := range []int{12, 16, 17} {
+			N := 1 << uint(lg)
+			f, ok := newFFT(N)
+			if !ok {
+				continue
+			}
+			fl := enum.Filler(2*N, uint64(lg)+99)
+			x := make([]complex128, N)
+			for i := range x {
+				x[i] = complex(b2f(fl[2*i]), b2f(fl[2*i+1]))
+			}
+			want := refmodel.RecFFT(x)
+			nx := norm(x)
+			got := f.Transform(x)
+			for k := range got {
+				if d := cmplx.Abs(got[k] - want[k]); d > tol(N)*nx {
+					report(fmt.Sprintf("Transform/GOMAXPROCS=%d", gmp), fmt.Sprintf("N=%d with GOMAXPROCS=%d: transform of the filler vector differs from the reference at %d by %.3g", N, gmp, k, d), map[string]interface{}{"N": N, "GOMAXPROCS": gmp})
+					break
+				}
+			}
+			evals++
+		}
+	}
+	runtime.GOMAXPROCS(prevG)
 	// ---------- constructor: largest power of two <= N; refusals ----------
 	maxCons := 1 << 13
 	common.ParFor(maxCons-1, func(i int) {
